@@ -243,6 +243,14 @@ func main() {
 			// a row hit parked behind a busy pipeline, then the row is switched and the address is read again
 			return []op{{false, 0, 4, 0}, {false, 8, 4, 0}, {true, 0, 4, 0}, {false, C(b), 4, 0}, {false, 0, 4, 0}}
 		}},
+		// unaligned accesses that run across a 64-byte boundary (1..64 bytes at any address are in the quantifier). All of
+		// them START in the first interleave unit, so one bank serves them in arrival order whatever the bank count
+		{"cross-line", func(b int) []op {
+			return []op{{true, 56, 16, 0}, {false, 56, 16, 0}, {true, 60, 8, 1}, {false, 48, 32, 0}, {false, 63, 2, 0}}
+		}},
+		{"cross-line-64", func(b int) []op {
+			return []op{{true, 36, 64, 0}, {false, 36, 64, 0}, {false, 60, 8, 0}}
+		}},
 		{"same-row-triple", func(b int) []op {
 			return []op{{true, 0, 4, 0}, {true, 8, 4, 0}, {true, 0, 4, 0}, {false, 0, 16, 0}}
 		}},
@@ -358,7 +366,7 @@ func main() {
 	}
 	enum(nil)
 	r.Assume = []string{
-		"accesses do not cross an interleave unit (64 B by default; 16 B and 256 B in the interleave configurations): a banked model serves one access in one bank",
+		"an access is served by the bank of its start address: accesses stay inside one interleave unit (64 B by default; 16 B and 256 B in the interleave configurations), except the cross-line sequences, whose accesses run across a 64-byte boundary and all start in the same unit",
 		"arrival order = order of delivery into the Top port's incoming buffer",
 		"row-miss delay >= 1 when row tracking is on (delay 0 disables the mechanism in the code)",
 	}
